@@ -62,7 +62,8 @@ def _key_for(x: dict) -> str:
         return f"{b}:dark-atoms:raises:{vr.split(':')[1]}"
     sd = rec.get("site_drive")
     required = [a for a in Q.site_order(c) if not c["dark"][a]]
-    if b == "mps" and c["reorder"] and sd is not None and sd != required:
+    si = rec.get("site_imat")
+    if b == "mps" and c["reorder"] and sd is not None and (sd != required or (si is not None and len(si) >= 2 and si != required)):
         return "mps:reorder:dark-mask-not-in-site-order"
     return f"{b}:dark-atoms:{vr}" + (":reorder" if c["reorder"] else "") + (":leakage" if c["dim"] == 3 else "")
 
